@@ -10,7 +10,9 @@ F = c15.F
 
 
 def register(reg):
-    reg.add_spec_source(c15.SPEC)
+    # the frame selection the three converters rely on (count, first, step, indices of a slice with a positive or a negative
+    # step, of a sample): the same contracts as C15, verified here too because C11's "exactly the selected frames" rests on them
+    c15.register(reg)
     # "the last X ... of the rows actually written": last() must be the last index the selector generates
     reg.add(Contract(F, 'Slice.last', {'self': c15.SLICE, 'length': Int}, requires=c15.SLICE_REQ + ['sl_count(self._slice, length) > 0'],
                      returns=Int, ensures=['result == sl_elem(self._slice, length, sl_count(self._slice, length) - 1)'],
